@@ -464,3 +464,51 @@ def _selfcheck():
 
 
 _selfcheck()
+
+
+# ------------------------------------------------- declaration-time rules (C11) --
+# "Each value sits at [its] location range ..., no two values overlap, and lockable locations only exist in
+# banks that have a lock byte."  A bank object owns location 0x00 (last accessible location) and - when it has
+# a lock byte or a latch byte - location 0x02; a program's value may use any other location once.
+def bank_reserved(has_lock, has_latch):
+    """Locations a freshly created bank occupies by itself."""
+    return {0x00} | ({0x02} if (has_lock or has_latch) else set())
+
+
+def declaration_reasons(occupied, has_lock, locs):
+    """Why the declaration of a value at `locs` = [(address, access type name)] has to be refused in a bank
+    whose locations `occupied` (set of addresses) already belong to a value: subset of {"overlap", "locking"};
+    empty = the declaration is legal.  The position of the offending location inside the value is irrelevant."""
+    reasons = set()
+    for a, t in locs:
+        if t not in MEMORY_TYPES:
+            raise ValueError("unknown access type %r" % (t,))
+        if a in occupied:
+            reasons.add("overlap")
+        if t == "NVM_RW_L" and not has_lock:
+            reasons.add("locking")
+    return reasons
+
+
+def declared_limit_pairs(nbytes, signed):
+    """(min, max) pairs a program may declare for an nbytes number: no limit, limits at 0, 1, -1, at the type's
+    extremes and next to them, min == max, an empty range; every one with the other side open or closed."""
+    bits = 8 * nbytes
+    lo, hi = (-(1 << (bits - 1)), (1 << (bits - 1)) - 1) if signed else (0, (1 << bits) - 1)
+    singles = [0, 1, lo, hi, lo + 1, hi - 1, hi - 2, hi - 3]
+    if signed:
+        singles += [-1, -2]
+    if hi > 200:
+        singles += [100]
+    pairs = [(None, None)]
+    for s in singles:
+        pairs += [(s, None), (None, s), (s, s)]
+    pairs += [(0, 1), (0, hi), (lo, 0), (0, hi - 2), (1, hi - 3), (1, 0), (lo, hi)]
+    if signed:
+        pairs += [(-1, 0), (-1, 1), (0, -1), (-2, -1), (lo, -1)]
+    seen, out = set(), []
+    for p in pairs:
+        if p not in seen and all(x is None or lo <= x <= hi for x in p):
+            seen.add(p)
+            out.append(p)
+    return out
